@@ -25,6 +25,7 @@ func init() {
 			a.pickKeysTable()
 			a.retireOrder("S.retire-order")
 			a.c05NewSession()
+			a.c05Retire()
 			a.fragmentResetBeforeDispatch("S.fragment-reset")
 		})
 }
@@ -227,4 +228,89 @@ func (a *An) fragmentResetBeforeDispatch(rule string) {
 		a.GateLocal(rule, "receiveUnit|dispatch-guard", cs, "dispatch of the reassembled message", "ok:fragmentsFinished")
 	}
 	R.Check(n == 1, rule, "receiveUnit|dispatch-site", "exactly one dispatch of reassembled messages", a.C.Pos(fn.Pos()), fmt.Sprintf("%d", n))
+}
+
+// c05Retire: a replay record is erased only when its generation is retired (or the whole context is wiped): the
+// per-record wipe is called from the history's wipe and from forgetCounters only, and in forgetCounters exactly the
+// record handed to the retire predicate is wiped, under the predicate's true outcome; the records kept are those
+// for which it was false.
+func (a *An) c05Retire() {
+	R := a.R
+	rule := "P.counter-retire"
+	a.WhoMayCall(rule, a.MustFn("(*keyPairCounter).wipe"), "(*counterHistory).wipe", "(*counterHistory).forgetCounters")
+	fn := a.MustFn("(*counterHistory).forgetCounters")
+	if fn == nil {
+		return
+	}
+	nw, nk := 0, 0
+	for _, b := range fn.Blocks {
+		for _, in := range b.Instrs {
+			writes := false
+			for _, ef := range a.E.InstrEffects(in) {
+				if ab := a.C.abs(fn, ef.Path); strings.HasPrefix(ab, "keyPairCounter.") || strings.HasPrefix(ab, "counterHistory.counters[].") {
+					writes = true
+				}
+			}
+			if writes {
+				nw++
+				var target ssa.Value
+				switch x := in.(type) {
+				case ssa.CallInstruction:
+					if len(x.Common().Args) > 0 {
+						target = x.Common().Args[0]
+					}
+				case *ssa.Store:
+					if fa, ok := x.Addr.(*ssa.FieldAddr); ok {
+						target = fa.X
+					}
+				}
+				ok := false
+				for _, pc := range predicateCalls(fn) {
+					if len(pc.Call.Args) == 1 && pc.Call.Args[0] == target && a.F.LocalAt(in).Has("@ok:"+pc.Name()) {
+						ok = true
+					}
+				}
+				R.Check(ok, rule, ordinalKey("forgetCounters|erase", map[string]int{}), "a record is erased only when the retire predicate held for that very record", a.C.InstrPos(in),
+					"the erased record is not the one the predicate was asked about, or the erase is not under the predicate's true outcome: a live replay counter is zeroed and old messages under a surviving key pair are accepted again")
+			}
+			if call, ok := in.(*ssa.Call); ok {
+				if bi, isB := call.Call.Value.(*ssa.Builtin); isB && bi.Name() == "append" {
+					nk++
+					elems := a.C.variadicElems(call.Call.Args[1])
+					ok := false
+					for _, pc := range predicateCalls(fn) {
+						if len(elems) == 1 && len(pc.Call.Args) == 1 && pc.Call.Args[0] == elems[0] && a.F.LocalAt(in).Has("@fail:"+pc.Name()) {
+							ok = true
+						}
+					}
+					R.Check(ok, rule, "forgetCounters|keep", "the records kept are exactly those the retire predicate rejected", a.C.InstrPos(in), "a record is kept without (or against) the predicate's outcome for it")
+				}
+			}
+		}
+	}
+	R.Check(nw >= 1 && nk >= 1, rule, "forgetCounters|shape", "forgetCounters erases retired records and keeps the others", a.C.Pos(fn.Pos()), fmt.Sprintf("%d erasing instructions, %d keeps", nw, nk))
+	// the history slice is replaced by the kept records
+	for _, st := range a.DirectStoresTo(a.MustField("counterHistory", "counters")) {
+		if st.Parent() != fn {
+			continue
+		}
+		t := a.C.Term(st.Val)
+		R.Check(strings.Contains(t, "append("), rule, "forgetCounters|replace", "the history becomes the kept records", a.C.InstrPos(st), "stores "+t)
+	}
+	R.Floor(rule, 5)
+}
+
+// predicateCalls: calls of a function-typed parameter inside fn.
+func predicateCalls(fn *ssa.Function) []*ssa.Call {
+	var out []*ssa.Call
+	for _, b := range fn.Blocks {
+		for _, in := range b.Instrs {
+			if call, ok := in.(*ssa.Call); ok {
+				if _, isP := call.Call.Value.(*ssa.Parameter); isP {
+					out = append(out, call)
+				}
+			}
+		}
+	}
+	return out
 }
